@@ -18,6 +18,8 @@ def gf : Flags := generatedFlags
 theorem gf_facts : gf.surnamesRespectVisibility = true ∧ gf.placesRespectHide = true ∧ gf.hideLettersFromDead = true := by
   decide
 
+theorem gf_keys : gf.keysSkipHidden = true := by decide
+
 /-- a living person with the private strings wiped -/
 def eraseP (p : PPerson) : PPerson :=
   if p.pub.living then { p with priv := default, pp := default } else p
@@ -145,8 +147,8 @@ theorem header_erase (d : DocA) (o : Opts) (n : Nat) (extra : Str) :
 
 /-! ## pages -/
 
-theorem individualListPage_erase (d : DocA) (o : Opts) (l : UInt8) :
-    individualListPage gf (erase d) .hide o l = individualListPage gf d .hide o l := by
+theorem individualListPage_erase (d : DocA) (o : Opts) (n : Nat) (l : UInt8) :
+    individualListPage gf (erase d) .hide o n l = individualListPage gf d .hide o n l := by
   unfold individualListPage
   rw [header_erase, indexLetters_erase]
   have e : ((erase d).people.filter (fun p => p.pp.listLetter == l)).filter (fun p => !hiddenP p .hide) =
@@ -238,15 +240,15 @@ theorem partnersAtoms_erase (d : DocA) (p : PPerson) : partnersAtoms (erase d) .
   have h2 : spouseShown (erase d) .hide = spouseShown d .hide := funext (spouseShown_erase d)
   simp only [h1, h2, childrenAtoms_erase]
 
-theorem individualPage_erase (d : DocA) (o : Opts) (p : PPerson) :
-    individualPage gf (erase d) .hide o p = individualPage gf d .hide o p := by
+theorem individualPage_erase (d : DocA) (o : Opts) (n : Nat) (p : PPerson) :
+    individualPage gf (erase d) .hide o n p = individualPage gf d .hide o n p := by
   unfold individualPage
   rw [header_erase, parentsAtoms_erase, eventsAtoms_erase, partnersAtoms_erase]
 
 /-! ## the site -/
 
-theorem site_erase (d : DocA) (o : Opts) : Pages.site gf (erase d) .hide o = Pages.site gf d .hide o := by
-  unfold Pages.site
+theorem siteOf_erase (d : DocA) (o : Opts) : siteOf gf (erase d) .hide o = siteOf gf d .hide o := by
+  unfold siteOf
   rw [places_erase, indexLetters_erase]
   have e : (erase d).people.filter (fun p => !hiddenP p .hide) = d.people.filter (fun p => !hiddenP p .hide) := by
     simp only [erase]
@@ -254,24 +256,61 @@ theorem site_erase (d : DocA) (o : Opts) : Pages.site gf (erase d) .hide o = Pag
   simp only [e, individualListPage_erase, individualPage_erase, placeListPage_erase, placePage_erase,
     familyListPage_erase, surnameListPage_erase]
 
+theorem keyed_hide (p : PPerson) : keyed gf .hide p = !p.pub.living := by
+  simp [keyed, gf_keys, hiddenP]
+
+theorem skip_hide : (fun p => !keyed gf .hide p) = (fun (p : PPerson) => p.pub.living) := by
+  funext p; simp [keyed_hide]
+
+/-- page names are handed out to the people who are not living; erasing the living commutes -/
+theorem assignKeys_erase (ks : List Str) (l : List PPerson) :
+    assignKeys (fun p => p.pub.living) ks (l.map eraseP) =
+      (assignKeys (fun p => p.pub.living) ks l).map eraseP := by
+  induction l generalizing ks with
+  | nil => rfl
+  | cons p ps ih =>
+    by_cases hl : p.pub.living = true
+    · simp [assignKeys, hl, ih]
+    · have hd : p.pub.living = false := by simpa using hl
+      have he : eraseP p = p := eraseP_dead p hd
+      cases ks with
+      | nil => simp [assignKeys, hd, he, ih]
+      | cons k ks' =>
+        have he' : eraseP { p with priv := { p.priv with page := k ++ Publish.html } } =
+            { p with priv := { p.priv with page := k ++ Publish.html } } := eraseP_dead _ hd
+        simp [assignKeys, hd, he, he', ih]
+
+theorem rekey_erase (d : DocA) (o : Opts) : rekey gf (erase d) .hide o = erase (rekey gf d .hide o) := by
+  unfold rekey
+  rw [places_erase]
+  have e : (erase d).people.filter (keyed gf .hide) = d.people.filter (keyed gf .hide) := by
+    simp only [erase]
+    exact filter_map_eraseP _ (by intro p hp; simp [keyed_hide, hp]) _
+  simp only [e, skip_hide]
+  simp only [erase, assignKeys_erase]
+
+theorem site_erase (d : DocA) (o : Opts) : Pages.site gf (erase d) .hide o = Pages.site gf d .hide o := by
+  unfold Pages.site
+  rw [rekey_erase, siteOf_erase]
+
 /-- Every page of the hide-mode site is the same for two documents that differ only in the private
     strings of living people: the individual list page of each letter, the surname list, the place
     list, each place page, the family list and each individual page. -/
 theorem page_hide_independent {d d' : DocA} (h : SameDoc d d') (o : Opts) :
-    (∀ l, individualListPage gf d' .hide o l = individualListPage gf d .hide o l) ∧
+    (∀ n l, individualListPage gf d' .hide o n l = individualListPage gf d .hide o n l) ∧
     (∀ n, surnameListPage gf d' .hide o n = surnameListPage gf d .hide o n) ∧
     placeListPage gf d' .hide o = placeListPage gf d .hide o ∧
     (∀ p, placePage gf d' .hide o p = placePage gf d .hide o p) ∧
     (∀ n, familyListPage gf d' .hide o n = familyListPage gf d .hide o n) ∧
-    (∀ p, individualPage gf d' .hide o p = individualPage gf d .hide o p) := by
+    (∀ n p, individualPage gf d' .hide o n p = individualPage gf d .hide o n p) := by
   have he := erase_eq_of_same h
   refine ⟨?_, ?_, ?_, ?_, ?_, ?_⟩
-  · intro l; rw [← individualListPage_erase d', ← individualListPage_erase d, he]
+  · intro n l; rw [← individualListPage_erase d', ← individualListPage_erase d, he]
   · intro n; rw [← surnameListPage_erase d', ← surnameListPage_erase d, he]
   · rw [← placeListPage_erase d', ← placeListPage_erase d, he]
   · intro p; rw [← placePage_erase d', ← placePage_erase d, he]
   · intro n; rw [← familyListPage_erase d', ← familyListPage_erase d, he]
-  · intro p; rw [← individualPage_erase d', ← individualPage_erase d, he]
+  · intro n p; rw [← individualPage_erase d', ← individualPage_erase d, he]
 
 /-- The whole modelled hide-mode site — which files exist, in which order, and the skeleton of each
     — does not depend on the living people's private strings, for every choice of page groups. -/
@@ -305,6 +344,21 @@ theorem page_leak_counterexample :
 /-- … while in show mode the sites of course differ, and in hide mode they are equal and not empty -/
 example : Pages.site gf docA .show oAll ≠ Pages.site gf docB .show oAll := by decide
 example : (Pages.site gf docA .hide oAll).map (·.1) =
-    [Pages.pageIndividuals 116, [116], bs "places.html", bs "families.html", bs "surnames.html"] := by decide
+    [Pages.pageIndividuals 116, Publish.sanitize [79] ++ Publish.html, bs "places.html", bs "families.html",
+     bs "surnames.html"] := by decide
+
+/-- a living person with the written name `t`, recorded before `pDead` (whose written name is "O") -/
+def nLiv (t : Str) : PPerson := { pLiv [76] [80] with pp := { (pLiv [76] [80]).pp with title := t } }
+
+/-- With the fact of the tree before the repair (every individual takes a page name, hidden or not)
+    the file name of a dead person depends on a living namesake: `o-1.html` vs `o.html`. -/
+theorem page_key_leak_counterexample :
+    (Pages.site unrepairedFlags ⟨[nLiv [79], pDead], [], [], 0⟩ .hide oAll).map (·.1) ≠
+    (Pages.site unrepairedFlags ⟨[nLiv [80], pDead], [], [], 0⟩ .hide oAll).map (·.1) := by
+  decide
+
+/-- … and with the regenerated facts the same two documents publish the same files -/
+example : (Pages.site gf ⟨[nLiv [79], pDead], [], [], 0⟩ .hide oAll).map (·.1) =
+    (Pages.site gf ⟨[nLiv [80], pDead], [], [], 0⟩ .hide oAll).map (·.1) := by decide
 
 end Gedcom.C17
